@@ -491,10 +491,52 @@ def _zero_product(e):
     return e
 
 
+_AC_KINDS = {z3.Z3_OP_AND, z3.Z3_OP_OR, z3.Z3_OP_ADD, z3.Z3_OP_MUL, z3.Z3_OP_EQ, z3.Z3_OP_DISTINCT, z3.Z3_OP_IFF, z3.Z3_OP_XOR}
+_NAMED_KINDS = {z3.Z3_OP_UNINTERPRETED, z3.Z3_OP_ANUM, z3.Z3_OP_AGNUM}
+
+
+def _canon(e, memo):
+    """structural fingerprint of a term that does not depend on the order of the arguments of commutative operators: z3.simplify
+    orders those by AST id, which differs from one execution of the code under test to the next, so neither the AST id nor a plain
+    structural hash identifies 'the same decision' across replays.  Iterative (digest chains nest thousands deep); memo: id -> (hash, term)."""
+    stack = [e]
+    while stack:
+        t = stack[-1]
+        k = t.get_id()
+        if k in memo:
+            stack.pop()
+            continue
+        if not z3.is_app(t):
+            memo[k] = (hash(("q", str(t))), t)
+            stack.pop()
+            continue
+        ch = t.children()
+        todo = [c for c in ch if c.get_id() not in memo]
+        if todo:
+            stack.extend(todo)
+            continue
+        d = t.decl()
+        kind = d.kind()
+        if not ch:
+            if kind == z3.Z3_OP_UNINTERPRETED:
+                h = hash(("const", d.name()))
+            elif kind in (z3.Z3_OP_ANUM, z3.Z3_OP_AGNUM):
+                h = hash(("num", z3.Z3_get_numeral_string(t.ctx_ref(), t.as_ast())))
+            else:
+                h = hash(("leaf", kind, d.name()))
+        else:
+            hs = [memo[c.get_id()][0] for c in ch]
+            if kind in _AC_KINDS:
+                hs.sort()
+            h = hash((kind, d.name() if kind in _NAMED_KINDS else "", tuple(hs)))
+        memo[k] = (h, t)
+        stack.pop()
+    return memo[e.get_id()][0]
+
+
 def _shape(e):
-    """cheap, argument-order-insensitive fingerprint of a decision (z3.simplify orders commutative arguments by AST id,
-    which differs between runs, so a structural hash cannot be used): used to notice gross replay divergence"""
-    return (e.decl().kind(), e.num_args())
+    """fingerprint of a decision for replay-divergence detection (see _canon)"""
+    return _canon(e, _cur.canon_memo)
 
 
 class Explorer:
@@ -519,6 +561,7 @@ class Explorer:
         self.path_hook = None          # called (ex) at the end of each completed path (concolic self-check)
         self.validated = 0
         self.notes = []
+        self.canon_memo = {}
 
     # -- fresh symbols -----------------------------------------------------------
     def _name(self, name):
@@ -590,25 +633,26 @@ class Explorer:
             return True
         if z3.is_false(e):
             return False
-        k = e.get_id()
+        k = _canon(e, self.canon_memo)          # not the AST id: see _canon
         c = self.cache.get(k)
         if c is not None:
             return c
-        r = self._decide(e)
+        r = self._decide(e, k)
         self.cache[k] = r
         ne = z3.simplify(z3.Not(e))
-        self.cache[ne.get_id()] = not r
-        self._keep.append(e)
-        self._keep.append(ne)
+        self.cache[_canon(ne, self.canon_memo)] = not r
+        self.cache[hash((z3.Z3_OP_NOT, "", (k,)))] = not r
         return r
 
-    def _decide(self, e):
+    def _decide(self, e, fp=None):
+        if fp is None:
+            fp = _canon(e, self.canon_memo)
         i = self.pos
         self.pos += 1
         self.decisions += 1
         if i < len(self.trail):
             v = self.trail[i][0]
-            if self.trail[i][2] is not None and self.trail[i][2] != _shape(e):
+            if self.trail[i][2] is not None and self.trail[i][2] != fp:
                 raise Unsupported("replay diverged: the code under test is not deterministic")
         else:
             can_t = self._check(e) == z3.sat
@@ -619,11 +663,11 @@ class Explorer:
             if can_t and can_f:
                 if self.depth_limit is not None and sum(1 for t in self.trail if len(t) > 3) >= self.depth_limit:
                     raise _Cut()
-                self.trail.append([True, True, _shape(e), "fork"])
+                self.trail.append([True, True, fp, "fork"])
             elif can_t:
-                self.trail.append([True, False, _shape(e)])
+                self.trail.append([True, False, fp])
             else:
-                self.trail.append([False, False, _shape(e)])
+                self.trail.append([False, False, fp])
             v = self.trail[i][0]
         self.s.add(e if v else z3.Not(e))
         return v
@@ -704,7 +748,7 @@ class Explorer:
         return ("confirmed", {})
 
     def _run_from(self, fn, prefix):
-        self.trail = [[v, False, None] for v in prefix]
+        self.trail = [[v, False, f] for v, f in prefix]
         t0 = self.t0
         base = self.s.num_scopes()
         while True:
@@ -712,6 +756,9 @@ class Explorer:
             self.s.push()
             self.cache = {}
             self._keep = []
+            # per path: the memo keeps its terms alive (an AST id must not be reused while an entry exists), and z3.simplify's ite rewrites look at
+            # reference counts - a memo kept across paths made the simplified form of a condition differ between the first execution and its replays
+            self.canon_memo = {}
             self.reached_flag = False
             self.n += 1
             for h in PATH_START_HOOKS:
@@ -735,10 +782,10 @@ class Explorer:
             except Abort:
                 self.aborted += 1
             except _Cut:
-                self.prefixes.append([t[0] for t in self.trail[:self.pos]])
+                self.prefixes.append([(t[0], t[2]) for t in self.trail[:self.pos]])
             except Violation as v:
                 if self.depth_limit is not None:      # enumeration pass: the main pass will meet it again
-                    self.prefixes.append([t[0] for t in self.trail[:self.pos]])
+                    self.prefixes.append([(t[0], t[2]) for t in self.trail[:self.pos]])
                     while self.s.num_scopes() > base:
                         self.s.pop()
                     del self.trail[self.pos:]
